@@ -385,6 +385,7 @@ func init() {
 			}
 			c.SignerRefusalReasons("C09")
 			c.BatchIdentifiers("C08")
+			c.LookupsReadOnly("C18")
 			c.LockerInternals("C15") // a batch of distinct keys returns its verdicts only if distinct keys have distinct mutexes
 			c.ScatterPartition("C09")
 			c.RulerPositions("C09")
